@@ -803,12 +803,12 @@ Definition op_aggregate (aggs : list agg) (g : grouper) : prog (outcome qframe) 
                 let? c' :=
                    (if a_count a then
                       let* counts := slice_lit (map (fun s => VZ (Z.of_nat (s_len s))) groups) in
-                      Ret (Ok (mkCol name (c_pos c) ty_int [counts]))
+                      Ret (Ok (mkCol name (s_len nc) ty_int [counts]))
                     else match a_fn a with
                          | None => Ret Fail
                          | Some fn => let? d := col_aggregate c fn (a_rty a) groups in
                                       let* w := wrap_result (a_rty a) d in
-                                      Ret (Ok (mkCol name (c_pos c) (fst w) (snd w)))
+                                      Ret (Ok (mkCol name (s_len nc) (fst w) (snd w)))
                          end) in
                 let* _ := map_store nm name c' in
                 lift (slice_append nc (VCol c'))
